@@ -124,7 +124,11 @@ def judge(steps, cfg, faulted: bool | None = None) -> list[dict]:
             if s["impl_wire"] != s["model_wire"]:
                 probs.append(("correspondence", f"wire trace of `{s['line']}` differs: impl {show_wire(s['impl_wire'])} model {show_wire(s['model_wire'])}"))
             elif not same_as_model:
-                probs.append(("correspondence", f"`{s['line']}` -> impl {impl} {s['detail']}, model {model}"))
+                if classify(s, cfg) == KNOWN_SIGS["D28"]:
+                    # (a command hit by a connection fault has no reference value; the defect shows against the model)
+                    probs.append(("property", f"`{s['line']}` -> impl {impl}, expected {model}: a negative integer was not read back"))
+                else:
+                    probs.append(("correspondence", f"`{s['line']}` -> impl {impl} {s['detail']}, model {model}"))
             else:
                 d_stub, d_model, d_spec = rh.split_dump(s["dump"])
                 if d_stub != d_model:
@@ -553,7 +557,7 @@ def run(chk: Check) -> int:
             if probs:
                 ctx.handle(cfg, ops, faults, steps, probs, "corpus:" + name)
         # generated histories
-        n = chk.budget(150, 2500)
+        n = chk.budget(400, 1500)
         for i in range(n):
             if ctx.found >= 3:
                 break
